@@ -492,9 +492,10 @@ def load_database(dbpath, rootdir):
 
             entry["file"] = path
 
-            # Include paths may be specified relative to root
+            # Relative include paths are interpreted the way the compiler
+            # would: relative to the directory the command runs in.
             entry["include_paths"] = [
-                os.path.abspath(os.path.join(rootdir, f))
+                os.path.abspath(os.path.join(filedir, f))
                 for f in entry["include_paths"]
             ]
 
